@@ -251,7 +251,7 @@ class Sim:
                     barrier.append(a)
                     continue
                 acts.append(("actor", a))
-                weights.append(prof.get(a.weight_key, prof["actor"]))
+                weights.append(prof.get(a.weight_key, prof["actor"]) * getattr(a, "weight_scale", 1.0))
         if not acts and barrier:
             for a in barrier:
                 acts.append(("actor", a))
